@@ -158,6 +158,54 @@ def build_simple_harness(name, std='c++17', extra_flags=None, sanitize=True, lin
     return exe
 
 
+def build_generated_harness(name, files, std='c++17', extra_flags=None, sanitize=True):
+    """compile generated sources (plus harness/<name>/*.hpp on the include path) against /repo."""
+    hdir = os.path.join(VERIF, 'harness', name)
+    flags0 = (CXX_SAN if sanitize else ['-O1', '-g']) + (extra_flags or [])
+    h = hashlib.sha256()
+    for n in sorted(files):
+        h.update(n.encode())
+        h.update(files[n].encode())
+    key = repo_hash(dir_hash(hdir) + std + ' '.join(flags0) + h.hexdigest())
+    out = os.path.join(BUILD, key, name)
+    exe = os.path.join(out, 'h_' + name)
+    if os.path.exists(exe):
+        os.utime(os.path.join(BUILD, key))
+        return exe
+    os.makedirs(out, exist_ok=True)
+    t0 = time.time()
+    for n, src in files.items():
+        with open(os.path.join(out, n), 'w') as f:
+            f.write(src)
+    flags = ['-std=' + std] + flags0 + ['-I' + os.path.join(REPO, 'include'), '-I' + hdir]
+    srcs = [os.path.join(out, n) for n in sorted(files) if n.endswith('.cpp')]
+    jobs = [(s_, s_[:-4] + '.o', flags) for s_ in srcs]
+    errs = compile_many(jobs, out)
+    if errs:
+        raise BuildError('generated %s harness does not compile against /repo:\n' % name + '\n'.join(errs[:3]))
+    r = sh(['g++'] + (['-fsanitize=address,undefined'] if sanitize else []) + [j[1] for j in jobs] + ['-o', exe + '.tmp'])
+    if r.returncode != 0:
+        raise BuildError('%s harness link failed:\n' % name + r.stderr[-3000:])
+    os.rename(exe + '.tmp', exe)
+    for j in jobs:
+        os.remove(j[1])
+    log('[build] generated h_%s for tree %s in %.0fs' % (name, key, time.time() - t0))
+    prune_builds({key})
+    return exe
+
+
+def run_noinput(exe):
+    env = dict(os.environ)
+    env['ASAN_OPTIONS'] = 'detect_leaks=1:exitcode=97:detect_stack_use_after_return=1'
+    env['UBSAN_OPTIONS'] = 'print_stacktrace=1:halt_on_error=1'
+    p = subprocess.run([exe], stdout=subprocess.PIPE, stderr=subprocess.PIPE, universal_newlines=True, env=env)
+    out = [o for o in p.stdout.split('\n') if o != '']
+    errs = []
+    if p.returncode != 0:
+        errs.append(('<whole run>', 'exit %d: %s' % (p.returncode, crash_summary(p.stderr))))
+    return out, errs
+
+
 def run_lines(cmd, lines, nbatch=None):
     """run a one-line-in/one-line-out program over `lines` in parallel batches; returns (outputs, errors)."""
     if not lines:
